@@ -737,6 +737,25 @@ func (handler *Handler) expectEOFOnColumnDefinition() bool {
 	return !handler.Capabilities.IsClientDeprecateEOF()
 }
 
+// isEndOfRows returns true if the packet read where a row of a result set is expected terminates the result set:
+// ERR packet, EOF packet or, with CLIENT_DEPRECATE_EOF, OK packet that has EOF's header byte.
+// A row is never confused with them: OK packets with 0x00 header don't terminate result sets, while a text row
+// may start with 0x00 (empty string in the first column) and a binary row always does.
+// https://dev.mysql.com/doc/dev/mysql-server/latest/page_protocol_com_query_response_text_resultset.html
+func (handler *Handler) isEndOfRows(packet *Packet) bool {
+	if packet.IsErr() {
+		return true
+	}
+	if packet.data[0] != EOFPacket {
+		return false
+	}
+	if handler.Capabilities.IsClientDeprecateEOF() {
+		// a row that starts with 0xfe carries 8-byte length of a value, so it is longer than any single packet
+		return len(packet.data) < MaxPayloadLen
+	}
+	return len(packet.data) < 9
+}
+
 func (handler *Handler) isPreparedStatementResult() bool {
 	return handler.currentCommand == CommandStatementExecute
 }
@@ -880,7 +899,7 @@ func (handler *Handler) QueryResponseHandler(ctx context.Context, packet *Packet
 					return err
 				}
 				output = append(output, fieldDataPacket)
-				if fieldDataPacket.IsEOF() {
+				if handler.isEndOfRows(fieldDataPacket) {
 					dataLog.Debugln("Empty result set")
 					break
 				}
@@ -1022,7 +1041,7 @@ func (handler *Handler) ProxyDatabaseConnection(ctx context.Context, errCh chan<
 			// Ok, EOF or ERROR packets are the last in the query response
 			// sequence. After them, we should continue serving.
 			// https://dev.mysql.com/doc/dev/mysql-server/latest/page_protocol_com_query_response.html
-			last := packet.IsErr() || packet.IsEOF()
+			last := handler.isEndOfRows(packet)
 			if last {
 				state = stateServe
 			}
